@@ -19,6 +19,8 @@
 (*   pred   : [Cs -> [St -> SUBSET St]]  proper predecessors (the          *)
 (*            transition relation without self-loops, backwards)           *)
 (*   succ   : the same relation forwards                                   *)
+(*   nv, vpred : (only for the saturation model) number of variables and   *)
+(*            predecessors through one variable, [1..nv -> Cs -> St -> ..] *)
 (*   unit   : the unit set, as a relation (a graph restricted by "x in d"  *)
 (*            has a smaller one)                                           *)
 (* Library calls are abstracted by their contracts: the saturation loop of *)
@@ -67,6 +69,18 @@ AX(G, R, st)  == Neg(G, EX(G, Neg(G, R), st))
 RECURSIVE LfpEU(_, _, _)
 LfpEU(G, A, Z) == LET z == TLCEval(Z) Z2 == TLCEval(Cup(G, z, Cap(G, A, Pre(G, z)))) IN IF Z2 = z THEN z ELSE LfpEU(G, A, Z2)
 EU(G, A, B)   == LfpEU(G, TLCEval(A), B)                 \* eval_eu_saturated: self-loops are not needed
+(* eval_eu_saturated AS WRITTEN: repeatedly take the LAST variable (in variable order) whose     *)
+(* pre-image adds something, add it, start over; G.vpred[v][c][s] = predecessors of s through an *)
+(* update of variable v.  MC_Saturation checks that it computes the same least fixed point.      *)
+VarPre(G, v, R) == LET r == TLCEval(R) IN Mk(G, LAMBDA sl : UNION {G.vpred[v][Col(sl)][s] : s \in r[sl]})
+RECURSIVE FirstUpdate(_, _, _, _)
+FirstUpdate(G, A, Z, v) ==      \* [found, set] for the highest variable <= v with a non-empty update
+  IF v = 0 THEN [found |-> FALSE, set |-> Z]
+  ELSE LET u == Minus(G, Cap(G, A, VarPre(G, v, Z)), Z) IN
+       IF ~IsEmpty(G, u) THEN [found |-> TRUE, set |-> Cup(G, Z, u)] ELSE FirstUpdate(G, A, Z, v - 1)
+RECURSIVE SaturateEU(_, _, _)
+SaturateEU(G, A, Z) ==
+  LET z == TLCEval(Z) f == FirstUpdate(G, A, z, G.nv) IN IF f.found THEN SaturateEU(G, A, TLCEval(f.set)) ELSE z
 EF(G, R)      == EU(G, G.unit, R)
 AG(G, R)      == Neg(G, EF(G, Neg(G, R)))
 RECURSIVE GfpEG(_, _, _)
